@@ -9,6 +9,9 @@ open Scales.Transport
 
 inductive Op where
   | openT (r : Conn)              -- Open() ; drain
+  | openBurst (rs : List (IOOut × Frame))
+                                  -- Open(), the connect succeeds, and the outcomes `rs` of the receive
+                                  -- loop's first reads are already there when it starts; drain
   | req (id : Nat) (tag : Nat)    -- AsyncProcessRequest ; drain.  `tag`: what the pool handed out
   | wr (o : IOOut)                -- the send loop's pending write returns with `o`
   | rd (o : IOOut) (f : Frame)    -- the receive loop's pending read returns with `o`
@@ -17,6 +20,11 @@ inductive Op where
                                   -- the receive loop's pending read and the reads that follow it
                                   -- return without a yield in between (a frame and the end of
                                   -- stream / error right behind it arrive together); then drain
+  | race (rs : List (IOOut × Frame)) (pos : Pos) (h : Hit)
+                                  -- the reads `rs` as in `burst`, and in the same drain the event `h`
+                                  -- (failing next read / failing write / Close()) at position `pos`:
+                                  -- before the reads, before the `_ProcessReply` greenlets of their
+                                  -- frames, or after those and before the greenlets they woke resume
   | pingDue                       -- the ping loop's sleep ends
   | pingSilence                   -- 5 s after a ping was queued, no Rping arrived
   | close                         -- Close()
@@ -35,10 +43,12 @@ structure Obs where
 
 def stepOut (s : St) : Op → St × Out
   | .openT r => s.openT r
+  | .openBurst rs => s.openBurst rs
   | .req id tag => s.request id tag
   | .wr o => s.wr o
   | .rd o f => s.rd o f
   | .burst rs => s.burst rs
+  | .race rs pos h => s.race rs pos h
   | .pingDue => s.pingDue
   | .pingSilence => s.pingSilence
   | .close => s.close
@@ -63,12 +73,27 @@ def decRead : V → Option (IOOut × Frame)
   | .l [o, f] => do pure (← decIO o, ← decFrame f)
   | _ => none
 
+def decPos : V → Option Pos
+  | .a "first" => some .first
+  | .a "pre" => some .pre
+  | .a "mid" => some .mid
+  | _ => none
+
+def decHit : V → Option Hit
+  | .a "rdraise" => some .rdRaise
+  | .a "rdeof" => some .rdEof
+  | .a "wr" => some .wr
+  | .a "close" => some .close
+  | _ => none
+
 def decOp : List V → Option Op
   | [.a "open", r] => do pure (.openT (← decConn r))
+  | [.a "openburst", .l rs] => do pure (.openBurst (← rs.mapM decRead))
   | [.a "req", id, tag] => do pure (.req (← id.nat?) (← tag.nat?))
   | [.a "wr", o] => do pure (.wr (← decIO o))
   | [.a "rd", o, f] => do pure (.rd (← decIO o) (← decFrame f))
   | [.a "burst", .l rs] => do pure (.burst (← rs.mapM decRead))
+  | [.a "race", .l rs, pos, h] => do pure (.race (← rs.mapM decRead) (← decPos pos) (← decHit h))
   | [.a "pingdue"] => some .pingDue
   | [.a "pingsilence"] => some .pingSilence
   | [.a "close"] => some .close
@@ -112,8 +137,10 @@ def decObs : V → Option Obs
   What C08 demands of the multiplexed transport, over observations only:
 
   * once        — a response is only ever handed to a request that is owed one;
-  * a *connection failure* (a refused connect; a write or read call of a loop that raised or
-    met end-of-stream — also one that follows other reads without a yield, `burst`; five
+  * a *connection failure* (a refused connect; a connection that is accepted and reset / ended
+    at once, `openBurst`; a write or read call of a loop that raised or
+    met end-of-stream — also one that follows other reads without a yield, `burst`, or that
+    lands in the middle of the drain those reads cause, `race`; five
     seconds of ping silence) must, within the same operation, fail every
     request in flight with an error, leave the transport reporting `closed`, and raise the
     fault signal if it was not reporting `closed` before;
@@ -122,7 +149,9 @@ def decObs : V → Option Obs
                   accepted, not yet transmitted request on the wire (so an accepted request is
                   on the wire after at most as many successful writes as frames were accepted
                   before it — unless the peer answered it before its turn came, in which case the
-                  repaired send loop drops its frame, C11/F6b).
+                  repaired send loop drops its frame, C11/F6b); a transport whose connection
+                  was closed on purpose cannot carry anything, so it does not report `open`
+                  after a `Close()` — wherever in a drain that `Close()` lands.
 
   Nothing is demanded for requests in flight at a deliberate `Close()`. -/
 
@@ -138,14 +167,29 @@ def isReq : Op → Option Nat
   | .req id _ => some id
   | _ => none
 
+/-- a deliberate `Close()`, alone or in the middle of a drain -/
+def isClose : Op → Bool
+  | .close => true
+  | .race _ _ .close => true
+  | _ => false
+
+/-- does a `race` contain a connection failure: its event is one (a failing read or write), or
+    one of its reads fails — unless the `Close()` came before the reads, which then never happen -/
+def raceFails (rs : List (IOOut × Frame)) (pos : Pos) (h : Hit) : Bool :=
+  match h with
+  | .close => decide (pos ≠ .first) && rs.any (fun r => r.1 ≠ .ok)
+  | _ => true
+
 def isFailure (op : Op) (o : Obs) : Bool :=
   match op with
   | .openT .refuse => decide (1 ≤ o.conns)
+  | .openBurst rs => rs.any (fun r => r.1 ≠ .ok)
   | .wr .raise => true
   | .wr .eof => true
   | .rd .raise _ => true
   | .rd .eof _ => true
   | .burst rs => rs.any (fun r => r.1 ≠ .ok)
+  | .race rs pos h => raceFails rs pos h
   | .pingSilence => true
   | _ => false
 
@@ -165,13 +209,15 @@ def owedWith (a : Acc) (op : Op) : List Nat :=
   | none => a.owed
 
 /-- the first request in flight that a connection failure leaves unattended.  Every request in
-    flight must be handed an error.  In a `burst` the frames precede the failing read: a request
+    flight must be handed an error.  In a `burst` or a `race` frames precede the failure: a request
     whose reply was dispatched before the failure was noticed is no longer in flight, so there a
     request counts as attended if it was handed its reply *or* an error in this operation
-    (never both: `settle`).  The code under verification always hands out the error. -/
+    (never both: `settle`).  In a `burst` the code under verification always hands out the error;
+    in a `race` at position `mid` the replies are really delivered first. -/
 def firstUnfailed (op : Op) (owed : List Nat) (dels : List (Nat × Resp)) : Option Nat :=
   match op with
   | .burst _ => owed.find? (fun id => !(dels.any (fun d => d.1 == id)))
+  | .race _ _ _ => owed.find? (fun id => !(dels.any (fun d => d.1 == id)))
   | _ => firstNotFailed owed dels
 
 /-- the clauses on a connection failure -/
@@ -193,6 +239,8 @@ def vCarry (a : Acc) (op : Op) (o : Obs) : Verdict :=
       .fail "rejected-while-open" [V.ofNat a.idx, V.ofNat id] else .ok
   | .wr .ok =>
     if progress a.unsent o.sent then .ok else .fail "write-carried-nothing" [V.ofNat a.idx]
+  | .close => if o.state = .opened then .fail "open-after-close" [V.ofNat a.idx] else .ok
+  | .race _ _ .close => if o.state = .opened then .fail "open-after-close" [V.ofNat a.idx] else .ok
   | _ => .ok
 
 def nextUnsent (a : Acc) (op : Op) (o : Obs) : List Nat :=
@@ -203,8 +251,8 @@ def nextUnsent (a : Acc) (op : Op) (o : Obs) : List Nat :=
   unsent1.filter (fun id => !(o.sent.any (fun it => itemId it == some id)))
 
 def nextAcc (a : Acc) (op : Op) (o : Obs) (owed2 ab2 : List Nat) : Acc :=
-  { owed := if op = .close then [] else owed2
-    abandoned := if op = .close then ab2 ++ owed2 else ab2
+  { owed := if isClose op then [] else owed2
+    abandoned := if isClose op then ab2 ++ owed2 else ab2
     prev := o.state
     unsent := nextUnsent a op o
     idx := a.idx + 1 }
@@ -224,21 +272,31 @@ def spec (_ : Unit) (h : List (Op × Obs)) : Verdict := specGo {} h
 
 /-! ### hypotheses on operation lists
 
-  `wr`, `rd`, `burst`, `pingDue`, `pingSilence` stand for something that happens to a blocked
+  `wr`, `rd`, `burst`, `race`, `pingDue`, `pingSilence` stand for something that happens to a blocked
   greenlet and are only meaningful when that greenlet exists (a `burst` may list reads behind a
-  failing one: they do not happen).  `Open()` is called once ("This method
+  failing one: they do not happen; the event of a `race` needs its greenlet too: a failing write
+  needs a pending write, a failing next read a receive loop that is still reading — all reads of
+  the race succeeded — and comes after them).  `Open()` is called once ("This method
   may only be called once"), before anything else; requests are not issued while the open is
   still waiting for the initial ping (the caller would block); request ids are fresh and the
   tag handed out by the pool is not the tag of a request in flight, nor 0 or 1 (C11). -/
 
+def hitOk (s : St) (rs : List (IOOut × Frame)) (pos : Pos) : Hit → Bool
+  | .rdRaise => decide (pos ≠ .first) && rs.all (fun r => r.1 = .ok)
+  | .rdEof => decide (pos ≠ .first) && rs.all (fun r => r.1 = .ok)
+  | .wr => (match s.sl with | .writing _ => true | _ => false)
+  | .close => true
+
 def enabled (s : St) (seen : List Nat) : Op → Bool
   | .openT _ => s.cstate = .idle && !s.hasOpenResult
+  | .openBurst _ => s.cstate = .idle && !s.hasOpenResult
   | .req id tag =>
     !seen.contains id && !s.opening &&
       (s.cstate ≠ .opened || (decide (2 ≤ tag) && !(s.tagMap.any (fun p => p.1 == tag))))
   | .wr o => (match s.sl with | .writing _ => true | _ => false) && o ≠ .eof
   | .rd _ _ => s.rl ≠ .dead
   | .burst _ => s.rl ≠ .dead
+  | .race rs pos h => s.rl ≠ .dead && hitOk s rs pos h
   | .pingDue => s.pingLoop && !s.pingWait
   | .pingSilence => s.pingWait
   | .close => s.cstate ≠ .idle || s.hasOpenResult
@@ -255,15 +313,26 @@ def opsOk (s : St) (seen : List Nat) : List Op → Bool
 /-- state after an operation list -/
 def runOps (s : St) (ops : List Op) : St := ops.foldl (fun s op => (stepOut s op).1) s
 
-/-- the operation meets a connection failure in state `s`: the connect is refused, the pending
+/-- the operation meets a connection failure in state `s` before any `_ProcessReply` greenlet of
+    the same drain has run: the connect is refused, the pending
     write of the send loop raises, the pending read of the receive loop raises or meets
-    end-of-stream, or an outstanding ping stays unanswered for five seconds -/
+    end-of-stream (alone, behind other reads, or — `race` at `first` / `pre` — together with a
+    failing write or read noticed before the frames are dispatched), or an outstanding ping stays
+    unanswered for five seconds.  (A `race` at `mid` whose reads succeed dispatches its frames
+    first and fails what is left: `C08_mux_race_inflight_answered_exactly_once`.) -/
 def connFailure (s : St) : Op → Bool
   | .openT .refuse => s.cstate = .idle && !s.hasOpenResult
+  | .openBurst rs => s.cstate = .idle && !s.hasOpenResult && rs.any (fun r => r.1 ≠ .ok)
   | .wr .raise => match s.sl with | .writing _ => true | _ => false
   | .rd .raise _ => s.rl ≠ .dead
   | .rd .eof _ => s.rl ≠ .dead
   | .burst rs => s.rl ≠ .dead && rs.any (fun r => r.1 ≠ .ok)
+  | .race rs pos h =>
+    s.rl ≠ .dead && hitOk s rs pos h &&
+      (match pos with
+       | .first => h.isFault
+       | .pre => rs.any (fun r => r.1 ≠ .ok) || h.isFault
+       | .mid => rs.any (fun r => r.1 ≠ .ok))
   | .pingSilence => s.pingWait
   | _ => false
 
